@@ -182,6 +182,9 @@ def summarize(res: dict, compared):
             for flag, name in ((seen_fault, "compile_after_fault_or_crash"), (seen_fail, "compile_after_failed_compile"), (seen_tamper, "compile_after_tamper"), (seen_edit, "compile_after_edit")):
                 if flag:
                     probes[name] = probes.get(name, 0) + 1
+        if seen_fault and not rec.get("fired") and rec["op"] in ("parse", "parse_string", "lint", "render", "cli") and rec.get("outcome") not in ("skipped", None) and not str(rec.get("outcome")).startswith(("hang", "internal")):
+            # bounded liveness after faults stop: the operation completed within its step budget
+            probes["sysop_completed_after_faults_stopped"] = probes.get("sysop_completed_after_faults_stopped", 0) + 1
         if rec.get("fired"):
             seen_fault = True
         if rec["op"] in ("parse", "parse_string", "cli", "render") and rec.get("outcome", "ok") not in ("ok", "skipped"):
